@@ -21,9 +21,9 @@ ID = "C16"
 LEVEL = "fault_enumeration"
 RULE = (
     "case = (real child process behaviour: well-behaved echo server, exits after k messages for k=0..3, ignores SIGTERM after signalling readiness, never reads stdin, floods stdout, closes stdout, "
-    "closes stdin, slow start; or a command that cannot be started: missing path, directory, non-executable file) x (exit path: normal, exception in body, outer CancelScope.cancel(), move_on_after around the "
-    "whole context, cancellation arriving while the context is already shutting down) x (moment: before the first message, request in flight, after a response); the product is enumerated (quick: every (behaviour, exit path) pair with rotating moments; thorough: full product x 3 jitters); "
-    "measured by the harness: context exit duration <= 2 x 1 s grace + 3 s slack, no /proc entry (running or zombie) for the child after a <=1 s settle, open-fd count equal to the count before entry, a request "
+    "closes stdin, slow start, ignores SIGTERM while flooding / while never reading; or a command that cannot be started: missing path, directory, non-executable file) x (exit path: normal, exception in body, outer CancelScope.cancel(), move_on_after around the "
+    "whole context, cancellation arriving while the context is already shutting down, a 2..100 ms timeout around the context that fires while it is being entered) x (moment: before the first message, request in flight, after a response); the product is enumerated (quick: every (behaviour, exit path) pair with rotating moments; thorough: full product x 3 jitters); "
+    "measured by the harness: context exit duration <= 2 x 1 s grace + 3 s slack, no /proc entry (running or zombie) for the child at the very moment the context has been left and again after a <=1 s settle, open-fd count equal to the count before entry, a request "
     "pending when the child dies ends in an exception, an unstartable command makes entering raise; non-trivial = behaviour other than well-behaved or exit path other than normal; distinct = distinct cell"
 )
 ASSUMPTIONS = [
@@ -45,10 +45,18 @@ def out(obj):
     sys.stdout.write(json.dumps(obj) + "\n"); sys.stdout.flush()
 if beh == "slow_start":
     time.sleep(0.5)
-if beh == "ignore_sigterm":
+if beh.startswith("ignore_sigterm"):
     signal.signal(signal.SIGTERM, signal.SIG_IGN)
 out({"jsonrpc": "2.0", "method": "notifications/message", "params": {"level": "info", "data": "ready"}})
-if beh == "never_reads":
+if beh == "ignore_sigterm+flood":
+    i = 0
+    while True:
+        try:
+            out({"jsonrpc": "2.0", "method": "notifications/message", "params": {"level": "info", "data": "x" * 200, "i": i}})
+        except BaseException:
+            time.sleep(0.05)
+        i += 1
+if beh == "never_reads" or beh == "ignore_sigterm+never_reads":
     while True:
         time.sleep(0.2)
 if beh == "flood":
@@ -92,19 +100,27 @@ if beh == "ignore_sigterm":
         time.sleep(0.2)
 '''
 
-BEHAVIOURS = ["well_behaved", "exit_at_0", "exit_at_1", "exit_at_2", "exit_at_3", "ignore_sigterm", "never_reads", "flood", "close_stdout", "close_stdin", "slow_start"]
+BEHAVIOURS = ["well_behaved", "exit_at_0", "exit_at_1", "exit_at_2", "exit_at_3", "ignore_sigterm", "never_reads", "flood", "close_stdout", "close_stdin", "slow_start",
+              "ignore_sigterm+flood", "ignore_sigterm+never_reads"]
 SPAWN_FAIL = ["missing_path", "directory", "not_executable"]
-EXITS = ["normal", "exception", "cancel", "move_on_after", "cancel_during_exit"]
+EXITS = ["normal", "exception", "cancel", "move_on_after", "cancel_during_exit", "timeout_during_enter"]
+ENTER_DEADLINES = [0.002, 0.01, 0.03, 0.06, 0.1]  # a timeout around the context that fires while (or just after) the child is being started
 MOMENTS = ["before_first", "in_flight", "after_response"]
 GRACE_BOUND = 2 * 1.0 + 3.0
 
 _SCRATCH: Optional[str] = None
+_SCRATCH_PID: Optional[int] = None
 
 
 def scratch() -> str:
-    global _SCRATCH
-    if _SCRATCH is None or not os.path.isdir(_SCRATCH):
+    global _SCRATCH, _SCRATCH_PID
+    if _SCRATCH is None or _SCRATCH_PID != os.getpid() or not os.path.isdir(_SCRATCH):
+        # one directory per process: a forked pool worker must not share (and later remove) its parent's
+        _SCRATCH_PID = os.getpid()
         _SCRATCH = tempfile.mkdtemp(prefix="vpbt_c16_")
+        import atexit
+
+        atexit.register(cleanup_scratch)  # the parent process (regression replays) cleans up when it ends
         with open(os.path.join(_SCRATCH, "child.py"), "w") as fh:
             fh.write(CHILD)
         with open(os.path.join(_SCRATCH, "notexec.txt"), "w") as fh:
@@ -116,7 +132,7 @@ def scratch() -> str:
 
 def cleanup_scratch() -> None:
     global _SCRATCH
-    if _SCRATCH and os.path.isdir(_SCRATCH):
+    if _SCRATCH and _SCRATCH_PID == os.getpid() and os.path.isdir(_SCRATCH):
         shutil.rmtree(_SCRATCH, ignore_errors=True)
     _SCRATCH = None
 
@@ -172,7 +188,10 @@ def run_cell(case: Dict[str, Any]) -> Dict[str, Any]:
         obs["fds_before"] = nfds()
         t_exit0 = None
         try:
-            scope = anyio.CancelScope() if exit_path != "move_on_after" else anyio.move_on_after(case.get("deadline", 0.6))
+            if exit_path == "timeout_during_enter":
+                scope = anyio.move_on_after(case.get("enter_deadline", 0.01))
+            else:
+                scope = anyio.CancelScope() if exit_path != "move_on_after" else anyio.move_on_after(case.get("deadline", 0.6))
             with scope:
                 client = StdioClient(params)
                 try:
@@ -213,7 +232,7 @@ def run_cell(case: Dict[str, Any]) -> Dict[str, Any]:
                             if exit_path == "cancel":
                                 scope.cancel()
                                 await asyncio.sleep(0)
-                            if exit_path == "move_on_after":
+                            if exit_path in ("move_on_after", "timeout_during_enter"):
                                 await asyncio.sleep(5)
                             if exit_path == "cancel_during_exit":
                                 # the body ends normally; the enclosing scope is cancelled a moment later,
@@ -233,6 +252,10 @@ def run_cell(case: Dict[str, Any]) -> Dict[str, Any]:
                             raise
         finally:
             obs["t_exit1"] = time.time()
+            # "leaves no child running or unreaped": looked at the very moment the context (or the scope around
+            # a cancelled entry) has been left, before anything else gets to run
+            obs["state_at_return"] = proc_state(obs["pid"]) if obs.get("pid") else None
+            obs["strays_at_return"] = [(p_, proc_state(p_)) for p_ in find_marker(marker)]
         # the task's cancel-scope stack must be intact after leaving the context: an
         # enclosing scope must exit cleanly and a second client must work in the same task
         if obs["entered"]:
@@ -289,10 +312,23 @@ def judge(case: Dict[str, Any], obs: Dict[str, Any]) -> List[Tuple[str, str, str
             f.append(("unstartable-command-entered-the-context", f"{beh}", "logic"))
         return f
     if not obs["entered"]:
+        if exit_path == "timeout_during_enter":
+            # the timeout fired while the context was being entered: nothing may be left of the attempt
+            left = [s_ for s_ in obs.get("strays_at_return", []) if s_[1] is not None] or [s_ for s_ in obs.get("strays", []) if s_[1] is not None]
+            if left:
+                f.append(("child-process-left-after-cancelled-entry", f"{beh}: timeout {case.get('enter_deadline')}s around the context fired during entry; child(ren) {left} still there", "process"))
+            if obs.get("fds_after", 0) > obs.get("fds_before", 0):
+                f.append(("file-descriptor-leak", f"{beh}/{exit_path}: {obs['fds_before']} -> {obs['fds_after']}", "process"))
+            if obs.get("run_exc"):
+                f.append(("leaving-the-context-raised-an-unrelated-exception", f"{beh}/{exit_path}: escaped the event loop: {obs['run_exc']}", "logic"))
+            return f
         if exit_path == "move_on_after" and beh == "slow_start":
             return f
         f.append(("startable-command-failed-to-enter", f"{beh}: {obs.get('enter_exc')} {obs.get('run_exc')}", "logic"))
         return f
+    if obs.get("state_at_return") is not None:
+        f.append((f"child-process-not-gone-when-the-context-returns:{'ignore_sigterm' if beh.startswith('ignore_sigterm') else 'other'}:{exit_path}",
+                  f"{beh}/{exit_path}/{moment}: pid {obs['pid']} in state {obs['state_at_return']!r} at the moment the context had been left", "process"))
     if obs.get("t_exit0") is not None:
         dur = obs["t_exit1"] - obs["t_exit0"]
         if dur > GRACE_BOUND:
@@ -301,7 +337,7 @@ def judge(case: Dict[str, Any], obs: Dict[str, Any]) -> List[Tuple[str, str, str
     strays = [s for s in obs.get("strays", []) if s[1] is not None]
     if st_after is not None or strays:
         kind = "zombie" if st_after == "Z" else "running"
-        f.append((f"child-process-left-{kind}:{beh if beh == 'ignore_sigterm' else 'other'}:{exit_path}", f"{beh}/{exit_path}/{moment}: pid {obs['pid']} state {st_after!r} strays {strays}", "process"))
+        f.append((f"child-process-left-{kind}:{'ignore_sigterm' if beh.startswith('ignore_sigterm') else 'other'}:{exit_path}", f"{beh}/{exit_path}/{moment}: pid {obs['pid']} state {st_after!r} strays {strays}", "process"))
     if obs.get("fds_after", 0) > obs.get("fds_before", 0):
         f.append(("file-descriptor-leak", f"{beh}/{exit_path}/{moment}: {obs['fds_before']} -> {obs['fds_after']}", "process"))
     if obs.get("pending") and obs["pending"][0] == "return":
@@ -351,6 +387,12 @@ def cells(full: bool) -> List[Dict[str, Any]]:
     for beh in BEHAVIOURS:
         for ex in EXITS:
             moments = MOMENTS if full else [MOMENTS[i % 3]]
+            if ex == "timeout_during_enter":
+                dl = ENTER_DEADLINES if full else [ENTER_DEADLINES[i % len(ENTER_DEADLINES)], ENTER_DEADLINES[(i + 2) % len(ENTER_DEADLINES)]]
+                for d_ in dl:
+                    cs.append({"child": beh, "exit": ex, "moment": "before_first", "enter_deadline": d_})
+                i += 1
+                continue
             for mo in moments:
                 cs.append({"child": beh, "exit": ex, "moment": mo})
             i += 1
